@@ -75,6 +75,8 @@ SplitBy(s, sep) == LET i == FindAt(s, sep, 1) IN
 RECURSIVE ReplAll(_, _, _)
 ReplAll(s, old, new) == LET i == FindAt(s, old, 1) IN
   IF i = 0 THEN s ELSE TakeS(s, i - 1) \o new \o ReplAll(DropS(s, i + Len(old) - 1), old, new)
+PlainStr(s) == \A i \in 1..Len(s) : s[i] \in {"a", "b", "c"}
+LiteralPat(p) == Len(p) >= 1 /\ PlainStr(p)
 RECURSIVE TrimL(_, _)
 TrimL(s, C) == IF s # <<>> /\ s[1] \in C THEN TrimL(Tail(s), C) ELSE s
 TrimR(s, C) == RevSeq(TrimL(RevSeq(s), C))
@@ -484,6 +486,17 @@ TRef(fn, a) ==
             LET s == StrOf(a[1]) old == StrOf(a[2]) new == StrOf(a[3]) IN
             IF old = <<>> THEN OKS(new \o ConcatAll([i \in 1..Len(s) |-> <<s[i]>> \o new])) ELSE OKS(ReplAll(s, old, new))
          ELSE UNDEF
+    \* the regular-expression functions on LITERAL patterns (plain letters: the pattern denotes itself), a sub-language whose
+    \* semantics is substring search; everything else about regular expressions is outside the reference
+    [] fn = "regex" ->
+         IF StrArgs(a, 2) /\ LiteralPat(StrOf(a[1])) /\ PlainStr(StrOf(a[2]))
+         THEN (IF FindAt(StrOf(a[2]), StrOf(a[1]), 1) > 0 THEN OKS(StrOf(a[1])) ELSE REJ) ELSE UNDEF
+    [] fn = "regexall" ->
+         IF StrArgs(a, 2) /\ LiteralPat(StrOf(a[1])) /\ PlainStr(StrOf(a[2]))
+         THEN OKV(SeqV(TList(TStr), [i \in 1..(Len(SplitBy(StrOf(a[2]), StrOf(a[1]))) - 1) |-> StrV(StrOf(a[1]))])) ELSE UNDEF
+    [] fn = "regexreplace" ->
+         IF StrArgs(a, 3) /\ LiteralPat(StrOf(a[2])) /\ PlainStr(StrOf(a[1])) /\ PlainStr(StrOf(a[3]))
+         THEN OKS(ReplAll(StrOf(a[1]), StrOf(a[2]), StrOf(a[3]))) ELSE UNDEF
     [] fn = "format" ->
          IF n >= 1 /\ IsStrK(a[1]) /\ (\A i \in 2..n : WhollyKnown(a[i])) THEN
             LET r == FormatRef(StrOf(a[1]), Tail(a)) IN
@@ -520,7 +533,7 @@ TRef(fn, a) ==
     [] OTHER -> UNDEF
 
 TRefFns == DOMAIN OpOfFn \cup {"ceil", "floor", "int", "signum", "min", "max", "pow", "log", "parseint", "upper", "lower", "title", "strlen",
-             "reverse", "substr", "join", "split", "chomp", "indent", "trimspace", "trim", "trimprefix", "trimsuffix", "replace",
+             "reverse", "substr", "join", "split", "chomp", "indent", "trimspace", "trim", "trimprefix", "trimsuffix", "replace", "regex", "regexall", "regexreplace",
              "format", "formatlist", "jsonencode", "jsonencode>jsondecode", "csvdecode", "formatdate", "timeadd"}
 
 \* A string the reference spells may have a different NORMAL form (a letter followed by the combining
